@@ -321,8 +321,6 @@ for _sub, _code in POWER_CODES.items():
 
 DOMAIN = {'sensor': [1, 2, 3, 7], 'sdr': [1, 2, 4, 7, 8, 9], 'fru': [0, 1, 2], 'channel': [1, 2, 3, 4],
           'interface': [0, 1], 'pchannel': [1, 2, 16], 'limit': [0, 1, 15], 'component': [0, 2]}
-SDR_IDS = {'mixed': [1, 2, 4, 7, 8, 9], 'sensors': [1, 2, 4, 7, 8], 'oem': [1, 2, 3], 'one': [1]}
-SENSORS = {'mixed': [1, 2, 3, 7], 'sensors': [1, 2, 3], 'oem': [1, 2], 'one': [9]}
 
 
 def render_num(rng, n, kind):
@@ -343,23 +341,25 @@ def hpm_file(spec):
     s = dict(B.DEFAULT_SPEC)
     s.update(spec or {})
     comp = 0 if s['components'] & 1 else 2
-    p = SCRATCH / ('img-%02x-%d.hpm' % (s['device_id'], comp))
+    p = SCRATCH / ('img-%02x-%06x-%04x-%d.hpm' % (s['device_id'], s['manufacturer_id'], s['product_id'], comp))
     p.write_bytes(B.hpm_image(s['device_id'], s['manufacturer_id'], s['product_id'], component=comp))
     return str(p), comp
 
 
 def gen_args(rng, name, spec):
     gram = API_EQUIV[name][1]
-    sdr = (spec or {}).get('sdr', 'mixed')
+    dev = B.Bmc(spec)
     out = []
     f, comp = hpm_file(spec)
+    port = rng.choice(sorted(dev.ports)) if dev.ports else (0, 1)       # a populated (interface, channel)
     for g in gram:
         if g[0] in ('n0', 'n'):
-            dom = {'sdr': SDR_IDS[sdr], 'sensor': SENSORS[sdr], 'component': [comp]}.get(g[1], DOMAIN[g[1]])
+            dom = {'sdr': dev.sdr_ids(), 'sensor': sorted(dev.sensor_numbers()) or [1], 'component': [comp],
+                   'fru': sorted(dev.frus), 'channel': [port[1]], 'interface': [port[0]]}.get(g[1]) or DOMAIN[g[1]]
             out.append(render_num(rng, rng.choice(dom), g[0]))
         elif g[0] == 'n?':
             if rng.random() < 0.8:
-                out.append(str(rng.choice(DOMAIN[g[1]])))
+                out.append(str(rng.choice(sorted(dev.frus))))
             else:
                 break
         elif g[0] == 'all?':
@@ -372,21 +372,105 @@ def gen_args(rng, name, spec):
     return out
 
 
+ENCS = ['ascii', 'ascii', '6bit', 'bcd', 'bin']
+NAMES = ['Temp CPU', 'V 12', 'FAN 1', 'HOT SWAP', '12.5-3', 'X', '', 'A_VERY_LONG_NAME_', 'IPMB-0']
+
+
+def gen_sdrs(rng):
+    """an SDR repository: full / compact / event-only / locator / OEM / unknown records, owner LUNs 0..3,
+    sensor numbers incl. 0 and 255 (the same number may live on several LUNs), entity ids / instances,
+    id strings in several encodings; record ids ascending with gaps"""
+    out, rid = [], 0
+    used = set()
+    for _ in range(rng.choice([1, 2, 3, 5, 8, 12])):
+        rid += rng.choice([1, 1, 2, 7, 0x100])
+        k = rng.choice(['full', 'full', 'full', 'compact', 'compact', 'event', 'fru', 'mc', 'oem', 'unknown'])
+        d = {'k': k, 'id': rid, 'enc': rng.choice(ENCS), 'name': rng.choice(NAMES),
+             'entity': [rng.choice([0, 3, 7, 0x20, 0xa0, 0xff]), rng.choice([0, 1, 0x60, 0x7f, 0xff])]}
+        if d['enc'] == 'bcd':
+            d['name'] = rng.choice(['12.5-3', '007', '4 2', '0'])
+        if k in ('full', 'compact', 'event'):
+            for _try in range(20):
+                lun, num = rng.choice([0, 0, 1, 2, 3]), rng.choice([0, 1, 2, 5, 0x7f, 0x80, 0xfe, 0xff, rng.randrange(256)])
+                if (lun, num) not in used:
+                    break
+            used.add((lun, num))
+            d['lun'], d['num'] = lun, num
+        if k == 'full':
+            d.update({'fmt': rng.choice([0, 1, 2]), 'm': rng.choice([1, 2, 10, -3, 511]), 'b': rng.choice([0, 5, -7]),
+                      'k1': rng.choice([0, 1, -2]), 'k2': rng.choice([0, -1, 2]),
+                      'thresholds': [rng.choice([0, 5, 0x7f, 0x80, 250, 255]) for _ in range(6)]})
+        if k == 'fru':
+            d['fru_id'] = rng.choice([0, 1, 2, 254])
+        if k == 'oem':
+            d['payload'] = bytes(rng.randrange(256) for _ in range(rng.choice([3, 4, 10, 30]))).hex()
+        if k == 'unknown':
+            d['type'] = rng.choice([0x08, 0x09, 0x0a, 0x10, 0x13, 0x14])
+            if d['type'] == 0x13:
+                continue          # type 0x13 has its own fixed layout; not generated
+        out.append(d)
+    if not out:
+        out.append({'k': 'full', 'id': 1, 'num': 255, 'lun': 3, 'name': 'Only'})
+    return out
+
+
+def gen_sel(rng):
+    out, rid = [], 0
+    for _ in range(rng.choice([0, 1, 2, 4, 9])):
+        rid += rng.choice([1, 1, 3, 0x100])
+        t = rng.choice([0x02, 0x02, 0x02, 0xc0, 0xdf, 0xe0, 0xff, rng.randrange(0xc0, 0x100)])
+        d = {'id': rid, 'type': t}
+        if t == 0x02:
+            d.update({'ts': rng.choice([0, 1, 0x5f000000, 0xffffffff]), 'gen': rng.choice([0x20, 0x0001, 0x8220, 0xffff]),
+                      'stype': rng.choice([1, 2, 0x12, 0xf0, 0xff]), 'num': rng.choice([0, 7, 255]),
+                      'ev': rng.choice([0x01, 0x6f, 0x81, 0xef]), 'data': [rng.randrange(256) for _ in range(3)]})
+        out.append(d)
+    return out
+
+
+def gen_frus(rng):
+    out = {}
+    for fid in rng.sample([0, 1, 2, 5, 254], rng.choice([1, 2, 3])):
+        c, b, p = rng.random() < 0.7, rng.random() < 0.8, rng.random() < 0.7
+        if not (c or b or p):
+            b = True
+        out[str(fid)] = {'chassis': c, 'board': b, 'product': p, 'custom': rng.choice([0, 1, 3]),
+                         'enc': rng.choice(ENCS), 'multirecord': rng.random() < 0.6, 'nrec': rng.choice([1, 2, 4])}
+    return out
+
+
 def gen_spec(rng):
+    """one BMC: device id, support bits, SDR / SEL / FRU content, port population, HPM components"""
     s = {}
-    if rng.random() < 0.7:
+    r = rng.random()
+    if r < 0.25:
         s['sdr'] = rng.choice(['mixed', 'sensors', 'oem', 'one'])
+    elif r < 0.9:
+        s['sdr'] = gen_sdrs(rng)
     if rng.random() < 0.5:
         s['support'] = rng.choice([0xbf, 0xbd, 0x3e, 0x01, 0x83])     # always SDR repository or sensor device
-    if rng.random() < 0.5:
+    r = rng.random()
+    if r < 0.3:
         s['sel'] = rng.choice([0, 1, 2, 5])
+    elif r < 0.8:
+        s['sel'] = gen_sel(rng)
+    if rng.random() < 0.6:
+        s['frus'] = gen_frus(rng)
     if rng.random() < 0.3:
         s['aux'] = False
     if rng.random() < 0.5:
         s['power_state'], s['last_event'], s['misc'] = rng.randrange(128), rng.randrange(32), rng.randrange(128)
         s['front_panel'] = rng.random() < 0.5
+    if rng.random() < 0.5:
+        s['components'] = rng.choice([0x01, 0x05, 0x04, 0x81, 0xff])
+    if rng.random() < 0.4:
+        s['hpm_missing'] = rng.sample([1, 2, 3, 4], rng.choice([1, 2]))
+    if rng.random() < 0.6:
+        # port population with gaps: any of 3 interfaces x channels 0..15 (what `portstate getall` walks) and beyond
+        s['ports'] = sorted(set((rng.randrange(3), rng.choice([0, 1, 2, 5, 15])) for _ in range(rng.choice([0, 1, 3, 8]))))
+        s['ports'] = [list(p) for p in s['ports']]
     if rng.random() < 0.3:
-        s['components'] = rng.choice([0x01, 0x05, 0x04])
+        s['device_id'], s['product_id'] = rng.randrange(256), rng.randrange(65536)
     return s
 
 
@@ -602,6 +686,17 @@ def oracle_command(inp):
     if name not in API_EQUIV:
         return None
     api_reqs, api_exc = run_api(lambda i: API_EQUIV[name][0](i, args), bmc_of(inp).handle)
+    import pyipmi.errors as E
+    if isinstance(api_exc, E.CompletionCodeError):
+        # the BMC refuses the documented sequence too (e.g. a sensor read on a LUN where it does not live):
+        # the tool must say so, exit non-zero, and have sent the same requests
+        if not o.status or ('%02x' % api_exc.cc) not in o.stdout.lower():
+            return 'the API call ends with completion code 0x%02x but the tool: status %r, output %r' % (
+                api_exc.cc, o.status, o.stdout[-100:])
+        if o.requests() != api_reqs:
+            return 'requests differ from the API call (both end with 0x%02x): tool %s, API %s' % (
+                api_exc.cc, o.requests()[-2:], api_reqs[-2:])
+        return None
     if api_exc is not None:
         return 'the API call itself failed on the reference BMC (%s: %s) - harness/BMC defect' % (type(api_exc).__name__, api_exc)
     if o.status != 0:
@@ -928,7 +1023,8 @@ def run(ctx):
     reps = 3 if q else 20
     for i, c in enumerate(cmds):
         resolved_ok = True
-        for rep in range(reps):
+        # the commands no theorem covers run against more, and more varied, BMCs
+        for rep in range(reps if c.name in THEOREM_COVERED or c.name == 'raw' else (10 if q else 60)):
             spec = {} if rep == 0 else gen_spec(rng)
             if c.name == 'raw':
                 args = ['0x06', '0x01'] if rep == 0 else ['lun', '0', '6', '1']
@@ -951,6 +1047,11 @@ def run(ctx):
                     ('cli-request', c.name, args))
             D.add(('cmd-run', c.name, tuple(args), repr(sorted(spec.items())), tuple(options)), True, 'command-run')
         add('chk_resolves %s %s' % (C.c_nat(i), C.c_bool(resolved_ok)), ('resolves', c.name))
+    # every record of the default repository (full / compact / event-only / locators, owner LUNs 0, 1, 2) by id
+    for rid in B.Bmc().sdr_ids():
+        for nm in ('sdr show', 'sdr raw'):
+            if any(c.name == nm for c in cmds):
+                oracle('command', {'command': nm, 'args': [render_num(rng, rid, 'n0')], 'spec': {}, 'options': []}, 'cli:%s' % nm)
     # OEM / id-less SDR records must not crash the sdr commands (well-formed replies)
     for nm, args in [('sdr show', ['2']), ('sdr showall', []), ('sdr list', []), ('sdr raw', ['0x2'])]:
         if any(c.name == nm for c in cmds):
